@@ -29,6 +29,8 @@ def plan(tier, seed):
         specs.append({"name": f"lr-exh{k}", "kind": "lr_exh", "index": k})
     for i in range(3 if tier == "quick" else 8):
         specs.append({"name": f"lr-rand{i}", "kind": "lr_rand", "index": i, "sets": 6 if tier == "quick" else 400})
+    for i in range(3 if tier == "quick" else 12):
+        specs.append({"name": f"ffx-shared-object{i}", "kind": "ffx_shared", "index": i})
     specs.append({"name": "contracts", "kind": "contracts"})
     for i in range(2 if tier == "quick" else 8):
         specs.append({"name": f"insitu{i}", "kind": "insitu", "index": i, "rounds": 3 if tier == "quick" else 150})
@@ -81,6 +83,44 @@ def _run_shard(spec, acc, ctx):
             acc.add("distinct", fp("e", n, key))
         acc.add("exhaustive_n", n)
         acc.sample({"kind": "exhaustive", "n": n, "keys": spec["keys"], "inputs_per_key": 1 << n})
+    elif kind == "ffx_shared":
+        # ONE cipher object and ONE key used at many widths in descending / ascending / shuffled order: the
+        # permutation at width n must not depend on what the object was used for before
+        for order_name in ("descending", "ascending", "shuffled"):
+            ffx = BitwiseFFX()
+            prps = {}
+            key = rng.randbytes(rng.choice([16, 24, 32]))
+            widths = list(range(2, 11)) + [13, 16, 21]
+            if order_name == "descending":
+                widths.sort(reverse=True)
+            elif order_name == "shuffled":
+                rng.shuffle(widths)
+            for n in widths:
+                xs = range(1 << n) if n <= 10 else [rng.getrandbits(n) for _ in range(300)] + [0, (1 << n) - 1]
+                image = set()
+                for x in xs:
+                    y = ffx.encrypt(key, Bitset(x, n))
+                    acc.count("ffx.encrypt")
+                    if len(y) != n or not (0 <= int(y) < (1 << n)):
+                        acc.violation(f"ffx:length:shared-object-{order_name}",
+                                      f"n={n} ({order_name} widths on one cipher object): output has {len(y)} bits",
+                                      {"n": n, "key": key, "x": x, "widths_before": widths[:widths.index(n)]})
+                        break
+                    image.add(int(y))
+                    back = ffx.decrypt(key, y)
+                    acc.count("ffx.decrypt")
+                    if int(back) != x or len(back) != n:
+                        acc.violation(f"ffx:inverse:shared-object-{order_name}", f"n={n}: decrypt(encrypt(x)) != x",
+                                      {"n": n, "key": key, "x": x, "widths_before": widths[:widths.index(n)]})
+                        break
+                else:
+                    acc.count("ffx.bijection_checks")
+                    if n <= 10 and len(image) != (1 << n):
+                        acc.violation(f"ffx:not-bijective:shared-object-{order_name}",
+                                      f"n={n}: image has {len(image)} of {1 << n} values", {"n": n, "key": key})
+                acc.count("cases")
+                acc.add("distinct", fp("sh", spec["index"], order_name, n))
+            acc.add("shared_object_orders", order_name)
     elif kind == "ffx_rand":
         ffx = BitwiseFFX()
         fpe_cls = prp_mod.get_prp_implementation("bitwise-fpe-prp")
@@ -323,6 +363,8 @@ def finish(m, tier, seed):
         inc.append(f"exhaustive widths covered {ex}, expected 2..12")
     if "2-byte" not in m["sets"].get("lr_exhaustive", []):
         inc.append("Luby-Rackoff 2-byte exhaustive run missing")
+    if len(m["sets"].get("shared_object_orders", [])) < 3:
+        inc.append("shared-cipher-object workload missing")
     if c.get("ffx.decrypt", 0) < 5000:
         inc.append("too few FFX inverse checks")
     if c.get("insitu.prp_calls", 0) < 50 or len(m["sets"].get("insitu_schemes", [])) < 2:
